@@ -700,12 +700,19 @@ DocFilterNames = _Names()
 
 
 def job_reductions(job):
-  """one-step reductions of a job: drop a filter, simplify the configuration delivery, drop a configuration
-  section / key, plain file names, smaller input of the same type"""
+  """one-step reductions of a job, the ones many failing cases share first (so that minimisations converge and the
+  verdict cache hits): plain file names, drop a filter, simpler configuration delivery, drop a configuration
+  section / key, smaller input of the same type"""
   def variant(**kw):
     j = copy.deepcopy(job)
     j.update(kw)
     return j
+  typ = INPUTS[job["input"]][0]
+  if job.get("itype") is not None or job["in_name"] != "in." + typ:
+    yield variant(itype=None, in_name="in." + typ)
+  otyp = _ref_type(job.get("otype"), job["out_name"])
+  if otyp in OUT_TYPES and (job.get("otype") is not None or job["out_name"] != "out." + otyp):
+    yield variant(otype=None, out_name="out." + otyp)
   fl = job.get("filters") or []
   for i in range(len(fl)):
     yield variant(filters=fl[:i] + fl[i + 1:])
@@ -717,44 +724,48 @@ def job_reductions(job):
   for which in ("config", "config_file"):
     cfg = job.get(which)
     if isinstance(cfg, dict):
+      if not cfg:
+        yield variant(**{which: None})
       for m in list(cfg):
         yield variant(**{which: {k: v for k, v in cfg.items() if k != m}})
+      for m in list(cfg):
         if isinstance(cfg[m], dict) and len(cfg[m]) > 1:
           for k in list(cfg[m]):
             c3 = copy.deepcopy(cfg)
             del c3[m][k]
             yield variant(**{which: c3})
-      if not cfg:
-        yield variant(**{which: None})
-  typ = INPUTS[job["input"]][0]
-  if job.get("itype") is not None or job["in_name"] != "in." + typ:
-    yield variant(itype=None, in_name="in." + typ)
-  otyp = _ref_type(job.get("otype"), job["out_name"])
-  if otyp in OUT_TYPES and (job.get("otype") is not None or job["out_name"] != "out." + otyp):
-    yield variant(otype=None, out_name="out." + otyp)
   for alt in ONE_PER_TYPE:
     if INPUTS[alt][0] == typ and alt != job["input"] and len(input_bytes(alt)) < len(input_bytes(job["input"])):
       yield variant(input=alt)
 
 
-_DIAG_BUDGET = [60]      # per worker process: how many failing cases are minimised before falling back to a coarse disc
+_VERDICTS = {}      # per process: job key -> trimmed verdict, used by the minimiser only
+
+
+def _cached_verdict(job):
+  k = _jkey(job)
+  v = _VERDICTS.get(k)
+  if v is None:
+    full = equiv_verdict(job)
+    v = {x: full.get(x) for x in ("kind", "observed", "expected", "note")}
+    if len(_VERDICTS) > 50000:
+      _VERDICTS.clear()
+    _VERDICTS[k] = v
+  return v
 
 
 def minimise(job, kind, verdict):
-  """Greedy 1-minimal reduction of a failing job (same verdict kind), so that the discriminator names only the
-  options that matter.  Bounded per process; beyond the budget the case is reported un-minimised."""
-  if _DIAG_BUDGET[0] <= 0:
-    return job, verdict, False
-  _DIAG_BUDGET[0] -= 1
+  """Greedy reduction of a failing job to a 1-minimal one with the same verdict kind, so that the discriminator
+  names only the options that matter and is a function of the case alone."""
   improved = True
   while improved:
     improved = False
     for cand in job_reductions(job):
-      v = equiv_verdict(cand)
+      v = _cached_verdict(cand)
       if v["kind"] == kind:
         job, verdict, improved = cand, v, True
         break
-  return job, verdict, True
+  return job, verdict
 
 
 _BASELINE = {}
@@ -773,9 +784,9 @@ def check_equiv(case, acc):
   v = equiv_verdict(job)
   has_unknown = any(DocFilterNames.get(f) is None for f in job.get("filters") or [])
   if v["kind"] is not None:
-    mjob, mv, minimal = minimise(job, v["kind"], v)
+    mjob, mv = minimise(job, v["kind"], v)
     clause = "C19.reject.noout" if v["kind"] == "noout" else "C19.equiv"
-    disc = job_features(mjob) + ("" if v["kind"] == "bytes" else f",{v['kind']}") + ("" if minimal else ",unminimised")
+    disc = job_features(mjob) + ("" if v["kind"] == "bytes" else f",{v['kind']}")
     acc.violation(clause, disc, {"job": mjob}, observed=mv["observed"], expected=mv["expected"], note=mv["note"])
     acc.case(f"violation:{v['kind']}", nontrivial=True, key=_jkey(job))
     return
